@@ -32,10 +32,16 @@ Log(c, rec) == hist' = Append(hist, rec @@ [c |-> c])
 (* does not afterwards select with the plain database token: which of the two identities *)
 (* then applies is not fixed by the property (the implementation keeps the user).         *)
 AuthGood == Log("c", [op |-> "auth", u |-> "admin", tok |-> "adminpwd"]) /\ cred' = [cred EXCEPT !.admin = TRUE]
-AuthBad  == Log("c", [op |-> "auth", u |-> "admin", tok |-> "wrong"]) /\ UNCHANGED cred
+(* wrong credentials: unrelated ones, and ones that share a prefix with the right one (shorter, longer, other case) *)
+AuthBad  == \E o \in {[u |-> "admin", tok |-> "wrong"], [u |-> "admin", tok |-> "adminpw"], [u |-> "admin", tok |-> "adminpwdx"],
+                      [u |-> "admin", tok |-> "ADMINPWD"], [u |-> "admi", tok |-> "adminpwd"], [u |-> "adminx", tok |-> "adminpwd"]} :
+               Log("c", o @@ [op |-> "auth"]) /\ UNCHANGED cred
 UseGood  == cred.user = "-" /\ Log("c", [op |-> "use-db", d |-> "d", tok |-> "tok", u |-> "-"]) /\ cred' = [cred EXCEPT !.sel = "d", !.user = "-"]
 UseBad   == \E o \in {[d |-> "d", tok |-> "bad", u |-> "-"], [d |-> "nodb", tok |-> "tok", u |-> "-"],
-                      [d |-> "d", tok |-> "bad", u |-> "u1"], [d |-> "d", tok |-> "ut", u |-> "nouser"]} :
+                      [d |-> "d", tok |-> "bad", u |-> "u1"], [d |-> "d", tok |-> "ut", u |-> "nouser"],
+                      [d |-> "d", tok |-> "to", u |-> "-"], [d |-> "d", tok |-> "tokx", u |-> "-"],
+                      [d |-> "d", tok |-> "u", u |-> "u1"], [d |-> "d", tok |-> "utx", u |-> "u1"],
+                      [d |-> "d", tok |-> "ut", u |-> "u"], [d |-> "d", tok |-> "d", u |-> "-"]} :
                Log("c", o @@ [op |-> "use-db"]) /\ UNCHANGED cred
 UseUser  == Log("c", [op |-> "use-db", d |-> "d", tok |-> "ut", u |-> "u1"]) /\ cred' = [cred EXCEPT !.sel = "d", !.user = "u1"]
 
